@@ -2,6 +2,8 @@
 //! many schedule points each step passes, then re-run it for EVERY placement of
 //! one pause: (step i, schedule point k of that step, resume after j further steps
 //! or at the end). Exhaustive for one preemption on that history and deterministic.
+//! With `sweep = Some(2)` every such run is extended by every placement of a second
+//! pause in a later step (preemption bound 2, short histories only).
 
 use vcore::drive::{hash_json, Ctx, Report, Violation};
 
@@ -47,6 +49,7 @@ pub fn run(ctx: &Ctx, case: &Case) -> Report {
         rep.inconclusive = first.inconclusive;
         return rep;
     }
+    let level = case.sweep.unwrap_or(1);
     let n = base.steps.len();
     for i in 0..n {
         for k in 0..counts[i].min(12) {
@@ -67,7 +70,7 @@ pub fn run(ctx: &Ctx, case: &Case) -> Report {
                     sweep: None,
             timed: None,
                 };
-                let r = Interp::new(ctx, &sub).run();
+                let (counts2, r) = if level >= 2 { points_per_step(ctx, &sub) } else { (vec![], Interp::new(ctx, &sub).run()) };
                 rep.executions += 1;
                 for l in r.labels {
                     if l.starts_with("park:") || l.starts_with("window:") || l.starts_with("known:") {
@@ -98,10 +101,77 @@ pub fn run(ctx: &Ctx, case: &Case) -> Report {
                     });
                     return finish(rep);
                 }
+                if level >= 2 && second_level(ctx, &sub, i, &counts2, &mut rep) {
+                    return finish(rep);
+                }
             }
         }
     }
     finish(rep)
+}
+
+/// every placement of a second pause in a step after `first` of a history that already
+/// holds one pause; returns true when the sweep has to stop (violation / inconclusive)
+fn second_level(ctx: &Ctx, one: &Case, first: usize, counts: &[usize], rep: &mut Report) -> bool {
+    let n = one.steps.len();
+    for i2 in (first + 1)..n {
+        if matches!(one.steps[i2], Step::Resume { .. }) {
+            continue;
+        }
+        for k2 in 0..counts.get(i2).copied().unwrap_or(0).min(8) {
+            let Some(paused) = one.steps[i2].with_pause(k2 as u8) else { continue };
+            let max_j = (n - 1 - i2).min(2);
+            for j2 in 0..=max_j {
+                let mut steps = one.steps.clone();
+                steps[i2] = paused;
+                if j2 > 0 {
+                    // the operation parked last
+                    steps.insert(i2 + j2 + 1, Step::Resume { p: 255, pause: None });
+                }
+                let sub = Case {
+                    cfg: one.cfg.clone(),
+                    script: one.script.clone(),
+                    steps,
+                    matrix: None,
+                    sweep: None,
+                    timed: None,
+                };
+                let r = Interp::new(ctx, &sub).run();
+                rep.executions += 1;
+                for l in r.labels {
+                    if l.starts_with("park:") || l.starts_with("window:") || l.starts_with("known:") {
+                        rep.labels.push(l);
+                    }
+                }
+                rep.labels.push("two-pauses".into());
+                rep.known.extend(r.known);
+                if r.nontrivial {
+                    rep.sub_nontrivial.push(hash_json(&sub));
+                }
+                if let Some(w) = r.inconclusive {
+                    rep.inconclusive = Some(w);
+                    return true;
+                }
+                if let Some(v) = r.violation {
+                    rep.violation = Some(Violation {
+                        oracle: v.oracle,
+                        step: v.step,
+                        detail: format!(
+                            "sweep placement of a second pause (step {}, point {}, resume after {}): {} | concrete case: {}",
+                            i2,
+                            k2,
+                            j2,
+                            v.detail,
+                            serde_json::to_string(&sub).unwrap_or_default()
+                        ),
+                        trace: v.trace,
+                    });
+                    return true;
+                }
+            }
+        }
+    }
+    false
 }
 
 fn finish(mut rep: Report) -> Report {
